@@ -1,7 +1,7 @@
 (** C03 — property theorems only.  Each is closed by [exact] of a lemma in Proofs*.v and followed by
     [Print Assumptions]. [check_operation_document] is the model of C03/Model.v that the correspondence
     run ties to crates/checker; [rule_ok] / [rule_ok_vis] are the reference validator of C03/Spec.v. *)
-From V Require Import Base.Util Gql.Ast C03.Model C03.Spec C03.Witness C03.Proofs C03.Proofs2 C03.Proofs3 C03.Proofs4 C03.Proofs5.
+From V Require Import Base.Util Gql.Ast C03.Model C03.Spec C03.Witness C03.Proofs C03.Proofs2 C03.Proofs3 C03.Proofs4 C03.Proofs5 C03.Proofs6.
 
 (** document-level rules: no guard *)
 Theorem C03_sound_unique_op_names : forall S D,
@@ -41,12 +41,33 @@ Print Assumptions C03_sound_fragment_definition_targets.
     following spreads from the operations (Spec.v [vis_op_sites]) — all sites of the operations' own selection
     sets, of inline fragments with and without type condition, of every fragment spread there (transitively, in the
     scope of the spreading operation's variables), directive lists at all six locations, argument values down to
-    nested list / input-object literals. The subscription rule is not covered (see design/C03.md). *)
+    nested list / input-object literals. The subscription rule is C03_sound_single_subscription_root below. *)
 Theorem C03_sound : forall S D,
   schema_wf S = true -> check_operation_document S D = [] ->
   forall r, r <> R_single_subscription_root -> rule_ok_vis S D r = true.
 Proof. exact sound_vis. Qed.
 Print Assumptions C03_sound.
+
+(** the subscription rule (5.2.3.1): CollectFields on the root selection set of a subscription yields exactly one
+    response key. [selsets_nonempty D]: what the grammar guarantees (a written selection set is not empty). No guard on
+    the schema. The proof relates three traversals (the checker's walk, its field count with a path stack, the
+    specification's CollectFields with a visited set) and shows the specification-side fuel is sufficient. *)
+Theorem C03_sound_single_subscription_root : forall S D,
+  selsets_nonempty D = true -> check_operation_document S D = [] ->
+  rule_ok S D R_single_subscription_root = true.
+Proof. exact single_subscription_root_sound. Qed.
+Print Assumptions C03_sound_single_subscription_root.
+
+(** all twenty rules *)
+Theorem C03_sound_all : forall S D,
+  schema_wf S = true -> selsets_nonempty D = true -> check_operation_document S D = [] ->
+  forall r, rule_ok_vis S D r = true.
+Proof.
+  intros S D Hw Hn Hc r. destruct (rule_eq_dec r R_single_subscription_root) as [->|Hr].
+  - exact (single_subscription_root_sound S D Hn Hc).
+  - exact (sound_vis S D Hw Hc r Hr).
+Qed.
+Print Assumptions C03_sound_all.
 
 (** the site-level statement behind C03_sound, for every amount of fuel of the specification-side enumeration
     (so no site is lost to fuel): each reached site satisfies every site rule ([site_ok]), every variable used at it is
